@@ -22,9 +22,14 @@ import (
 )
 
 type c02Rule struct {
-	Pat  string   `json:"pat"` // relative to the policy's namespace
-	Caps []string `json:"caps"`
+	Pat    string    `json:"pat"` // relative to the policy's namespace
+	Caps   []string  `json:"caps"`
+	Expire time.Time `json:"expiration,omitempty"` // zero: permanent. Whole seconds (documented per-path expiration).
 }
+
+// c02ExpiryMargin: the reference does not decide within this distance of a path's
+// expiration instant (the server reads its own clock a little later than the harness).
+const c02ExpiryMargin = time.Second
 
 type c02Policy struct {
 	NS     string    `json:"ns"`
@@ -40,7 +45,11 @@ func (p *c02Policy) HCL() string {
 		for i, c := range r.Caps {
 			q[i] = fmt.Sprintf("%q", c)
 		}
-		fmt.Fprintf(&b, "path %q { capabilities = [%s] }\n", r.Pat, strings.Join(q, ","))
+		if r.Expire.IsZero() {
+			fmt.Fprintf(&b, "path %q { capabilities = [%s] }\n", r.Pat, strings.Join(q, ","))
+		} else {
+			fmt.Fprintf(&b, "path %q {\n  capabilities = [%s]\n  expiration = %q\n}\n", r.Pat, strings.Join(q, ","), r.Expire.UTC().Format(time.RFC3339))
+		}
 	}
 	return b.String()
 }
@@ -140,6 +149,7 @@ type c02World struct {
 	Policies map[string]*c02Policy `json:"-"` // ns|name
 	Toks     []*c02Tok             `json:"-"`
 	Entities []*c02Entity          `json:"-"`
+	TimedAt  time.Time             `json:"timed_blocks_expire_at"` // zero: no time-boxed path blocks
 }
 
 func (w *c02World) policy(ns, name string) *c02Policy { return w.Policies[ns+"|"+name] }
@@ -285,13 +295,25 @@ func c02HasExact(rules map[string]map[string]bool, path string) bool {
 	return false
 }
 
-// rulesFor collects the absolute rules of a token: pattern -> capability set,
-// union over policies with deny sticky.
-func (w *c02World) rulesFor(t *c02Tok) map[string]map[string]bool {
-	out := map[string]map[string]bool{}
+// rulesFor collects the absolute rules of a token as of now: pattern -> capability
+// set, union over policies with deny sticky. Path blocks whose expiration has passed
+// grant (and deny) nothing; ambiguous reports a block within the margin of its
+// expiration instant; withExpired is the same collection ignoring expirations.
+func (w *c02World) rulesFor(t *c02Tok, now time.Time) (out, withExpired map[string]map[string]bool, timed map[string]bool, ambiguous bool) {
+	out, withExpired, timed = map[string]map[string]bool{}, map[string]map[string]bool{}, map[string]bool{}
 	names := append([]string(nil), t.Policies...)
 	if t.Entity != nil {
 		names = append(names, t.Entity.Policies...)
+	}
+	add := func(dst map[string]map[string]bool, abs string, caps []string) {
+		m := dst[abs]
+		if m == nil {
+			m = map[string]bool{}
+			dst[abs] = m
+		}
+		for _, c := range caps {
+			m[c] = true
+		}
 	}
 	for _, n := range names {
 		p := w.policy(t.NS, n)
@@ -300,21 +322,25 @@ func (w *c02World) rulesFor(t *c02Tok) map[string]map[string]bool {
 		}
 		for _, r := range p.Rules {
 			abs := p.NS + r.Pat
-			m := out[abs]
-			if m == nil {
-				m = map[string]bool{}
-				out[abs] = m
+			add(withExpired, abs, r.Caps)
+			if !r.Expire.IsZero() {
+				timed[abs] = true
+				d := now.Sub(r.Expire)
+				if d > -c02ExpiryMargin && d < c02ExpiryMargin {
+					ambiguous = true
+				}
+				if d > 0 {
+					continue
+				}
 			}
-			for _, c := range r.Caps {
-				m[c] = true
-			}
+			add(out, abs, r.Caps)
 		}
 	}
-	return out
+	return out, withExpired, timed, ambiguous
 }
 
 // aclAllows: "allow" / "deny" / "unknown".
-func (w *c02World) aclAllows(t *c02Tok, reqNS, abs, op string, sudo bool) (string, string) {
+func (w *c02World) aclAllows(t *c02Tok, reqNS, abs, op string, sudo bool, now time.Time) (string, string) {
 	if t.Root {
 		if strings.HasPrefix(reqNS, t.NS) {
 			return "allow", "root policy"
@@ -326,7 +352,24 @@ func (w *c02World) aclAllows(t *c02Tok, reqNS, abs, op string, sudo bool) (strin
 	case "revoke", "renew", "rollback":
 		capName = "update"
 	}
-	rules := w.rulesFor(t)
+	rules, withExpired, timed, ambiguous := w.rulesFor(t, now)
+	if ambiguous {
+		return "unknown", "a path block of the token's policies is within a second of its expiration"
+	}
+	res, why := c02Decide(rules, abs, op, capName, sudo)
+	if res == "deny" {
+		if r2, _ := c02Decide(withExpired, abs, op, capName, sudo); r2 == "allow" {
+			return "deny", "expired-grant: " + why
+		}
+	}
+	if res == "allow" && timed[why] {
+		why = "timed-grant: " + why
+	}
+	return res, why
+}
+
+// c02Decide applies the documented matching to one rule collection.
+func c02Decide(rules map[string]map[string]bool, abs, op, capName string, sudo bool) (string, string) {
 	caps, pat, ok := c02Winner(rules, abs)
 	if (op == "list" || op == "scan") && strings.HasSuffix(abs, "/") && !c02HasExact(rules, abs) {
 		trim := strings.TrimSuffix(abs, "/")
@@ -476,11 +519,11 @@ func (w *c02World) judge(q *c02Req, now time.Time) *c02Verdict {
 	live, why := q.Tok.liveness(q.Remote, now)
 	acl, aclWhy := "deny", "forged token"
 	if !q.Tok.Forged || q.Tok.Policies != nil {
-		acl, aclWhy = w.aclAllows(q.Tok, ns, full, v.Op, rootPath)
+		acl, aclWhy = w.aclAllows(q.Tok, ns, full, v.Op, rootPath, now)
 		if m == nil && (q.Op == "create" || q.Op == "update") {
 			// not a recording mount: whether the backend has an existence check (which
 			// turns the write into create or update) is not known to the reference
-			other, _ := w.aclAllows(q.Tok, ns, full, "create", rootPath)
+			other, _ := w.aclAllows(q.Tok, ns, full, "create", rootPath, now)
 			if other != acl {
 				acl, aclWhy = "unknown", "create/update resolution of a backend the harness does not model"
 			}
@@ -491,6 +534,9 @@ func (w *c02World) judge(q *c02Req, now time.Time) *c02Verdict {
 		v.WouldAllow = acl == "allow"
 		return deny("token:" + why)
 	case acl == "deny":
+		if strings.HasPrefix(aclWhy, "expired-grant") {
+			return deny("policy:expired-grant (" + aclWhy + ")")
+		}
 		if strings.Contains(aclWhy, "lacks sudo") {
 			return deny("policy:sudo-missing: " + aclWhy)
 		}
